@@ -37,8 +37,9 @@ def rule_tweak(ctx: Ctx, rep: Report) -> None:
     rule = "C12.tweak"
     tt = ctx.func(f"{T}._tap_tweak")
     g = ctx.cfg(tt)
-    hits = [n for t, pol, n in ctx.refusals(tt) if pol and norm(t) in ("t >= secp256k1.n", "secp256k1.n <= t")]
-    ok = bool(hits) and g.must_pass([h.id for h in hits]) is None
+    from sa.ranges import refused_on_every_path
+    tn = PT.find(tt.node, "$t = int.from_bytes($$h, 'big')", mt := {}) or PT.find(tt.node, "$t = int.from_bytes($$h, byteorder='big')", mt)
+    ok = refused_on_every_path(ctx, tt, mt.get("t", "t"), ">=", "secp256k1.n")
     rep.ob(rule, "range", ok, tt.where(), "t >= n refused on every path to the returned tweak" if ok else "an out-of-range tweak can be returned")
     th = [c for c in own_nodes(tt.node) if isinstance(c, ast.Call) and call_name(c) == "tagged_hash"]
     okt = bool(th) and ctx.fold(th[0].args[0], tt.module) == b"TapTweak" and norm(th[0].args[1]) == f"{tt.params()[0]} + {tt.params()[1]}"
